@@ -129,6 +129,21 @@ PAIRS['three'] = ([(sg_mid_out, '_a'), (sg_gelu_fc, '_b'),
                    (sg_concat, '_c')], False)
 PAIRS['three_fc'] = ([(sg_fc_fc, '_a'), (sg_fc_tanh, '_b'),
                       (sg_fc_fc, '_c')], False)
+def sg_fc_named_w(mb, sfx, shared=None):
+  """FC whose weight tensor is called 'w' in every subgraph that uses this
+  builder (tensor names need only be unique per subgraph in the schema; the
+  library refuses model-wide duplicates - that refusal is accepted below)."""
+  g = mb.subgraph('fc_w' + sfx)
+  x = g.input('x' + sfx, (1, 2))
+  mb.all_names.discard('w')
+  k = float(len(sfx) + ord(sfx[-1]) % 5)
+  w = g.const('w', DATA * np.float32(1.0 + 0.5 * k))
+  g.output(g.fc(x, 'y' + sfx, bias=False, w_idx=w))
+  return g
+
+
+PAIRS['same_constant_name_nonadjacent'] = (
+    [(sg_fc_named_w, '_a'), (sg_gelu_fc, '_b'), (sg_fc_named_w, '_c')], False)
 # subgraph names are optional and need not be unique in the schema: the same
 # pairs with unnamed / equally named subgraphs (pair[2] = naming)
 PAIRS['deep_then_constants/unnamed'] = (
@@ -284,7 +299,8 @@ def make_harness(pair, recipe, backend):
     if om.raised is not None:
       # the multi-subgraph model may be rejected only if some subgraph alone
       # is rejected too, or for a conflict between the sharers (C15)
-      ok = bool(any_single_raised) or 'share the same buffer' in str(om.raised)
+      ok = bool(any_single_raised) or 'share the same buffer' in str(
+          om.raised) or 'is not unique in the model' in str(om.raised)
       e.check('C19.rejected_only_if_a_subgraph_alone_is', ok,
               info=[f'{type(om.raised).__name__}: {str(om.raised)[:120]}'])
       return
